@@ -486,7 +486,7 @@ class Program(object):
                     out[self.fold(expr.key, module, cls, e2, _depth + 1)] = \
                         self.fold(expr.value, module, cls, e2, _depth + 1)
             return out
-        if isinstance(expr, (ast.ListComp, ast.SetComp)) and len(expr.generators) == 1:
+        if isinstance(expr, (ast.ListComp, ast.SetComp, ast.GeneratorExp)) and len(expr.generators) == 1:
             g = expr.generators[0]
             it = f(g.iter)
             out = []
@@ -495,7 +495,7 @@ class Program(object):
                 self._bind(g.target, item, e2)
                 if all(self.fold(c, module, cls, e2, _depth + 1) for c in g.ifs):
                     out.append(self.fold(expr.elt, module, cls, e2, _depth + 1))
-            return out if isinstance(expr, ast.ListComp) else set(out)
+            return out if not isinstance(expr, ast.SetComp) else set(out)
         if isinstance(expr, ast.Call):
             if isinstance(expr.func, ast.Name) and expr.func.id in _SAFE_CALLS and not expr.keywords:
                 args = [f(a) for a in expr.args]
